@@ -13,7 +13,7 @@
 (*  C20: after an exception the copies agree (all-or-nothing) and the writer  *)
 (*       lock is free.                                                        *)
 EXTENDS TraceBase
-VARIABLES l, wopen, hold, inop, need, last, retmax, applied, ndone, blk, wstart, rstart, rdone
+VARIABLES l, wopen, hold, inop, need, last, retmax, applied, ndone, blk, wstart, rstart, rdone, fairp
 mv == <<wopen, hold, inop, need, last, retmax, applied, ndone, blk, wstart, rstart, rdone>>
 MaxT == 8
 MaxC == 8
@@ -22,12 +22,15 @@ Pow4 == <<1, 4, 16, 64, 256, 1024, 4096, 16384, 65536>>
 IsPref(p, v) == \E k \in 1..9 : v \div Pow4[k] = p
 Digits(v) == IF v <= 0 THEN 0 ELSE CHOOSE k \in 1..8 : Pow4[k] <= v /\ v < Pow4[k + 1]
 TInit == /\ l = 1 /\ wopen = [i \in 0..MaxC |-> 0] /\ hold = ZT /\ inop = [t \in 0..MaxT |-> ""] /\ need = ZT /\ last = ZT
-         /\ retmax = 0 /\ applied = ZT /\ ndone = 0 /\ blk = {} /\ wstart = ZT /\ rstart = ZT /\ rdone = [w \in 0..MaxT |-> ZT] /\ TLCSet(1, 0)
+         /\ retmax = 0 /\ applied = ZT /\ ndone = 0 /\ blk = {} /\ wstart = ZT /\ rstart = ZT /\ rdone = [w \in 0..MaxT |-> ZT] /\ fairp = FALSE /\ TLCSet(1, 0)
 Viol(what) == MonViol(l, what)
 Readers == {"read", "read2", "relay"}
 TNext ==
     /\ l <= Len(Tr)
     /\ l' = l + 1
+    \* fairp: the execution ran under the fair round-robin policy (fair=1): only then does "the writer was delayed" mean that it waited
+    \* for the readers and not for the scheduler
+    /\ fairp' = IF Tr[l].k = "reset" THEN ("fair" \in DOMAIN Tr[l].p /\ Tr[l].p.fair = 1) ELSE fairp
     /\ LET e == Tr[l] IN
        CASE e.k = "reset" ->
               /\ wopen' = [i \in 0..MaxC |-> 0] /\ hold' = ZT /\ inop' = [t \in 0..MaxT |-> ""] /\ need' = ZT /\ last' = ZT
@@ -43,7 +46,7 @@ TNext ==
               /\ ndone' = IF e.v >= 0 \/ applied[e.t] >= 1 THEN ndone + 1 ELSE ndone
               /\ inop' = [inop EXCEPT ![e.t] = ""]
               \* under fair scheduling a writer waits for handles that are still held, not for a stream of new ones
-              /\ (\E r \in 1..MaxT : rdone[e.t][r] >= 10) => Viol("C14: a writer was delayed while one reader took and released 10 or more handles (livelock with a reader stream)")
+              /\ (fairp /\ \E r \in 1..MaxT : rdone[e.t][r] >= 10) => Viol("C14: a writer was delayed while one reader took and released 10 or more handles (livelock with a reader stream)")
               /\ wstart' = [wstart EXCEPT ![e.t] = 0]
               /\ UNCHANGED <<wopen, hold, need, last, applied, blk, rstart, rdone>>
          [] e.k = "ret" /\ e.o \in Readers ->
@@ -92,6 +95,6 @@ TNext ==
          [] e.k \in {"crash", "terminate"} -> Viol("C03: crash") /\ UNCHANGED mv
          [] OTHER -> UNCHANGED mv
     /\ Mark(l)
-TSpec == TInit /\ [][TNext]_<<l, mv>>
+TSpec == TInit /\ [][TNext]_<<l, mv, fairp>>
 Accepted == IF TLCGet(1) = Len(Tr) THEN TRUE ELSE Rejected(TLCGet(1) + 1)
 =============================================================================
